@@ -4,6 +4,7 @@
   `process_ack_timeouts`, `update_interrupted_retries`, `fail_operations_exceeding_max_interruption_limit`.
 -/
 import GV.Proofs.EngineBasics
+import GV.Proofs.EngineWF
 namespace GV.Props.C18
 open GV
 
@@ -226,5 +227,38 @@ theorem exceeding_selection (e : Engine) (limit : Nat) (m : List (Nat × Nat)) (
     | some o => exact ⟨o, rfl, by simpa [ho] using hf⟩
   · rintro ⟨hm, o, ho, hgt⟩
     exact ⟨hm, by simp [ho, hgt]⟩
+
+/-! ### every history -/
+
+/-- **Never for operations without a timeout - after any sequence of events, for any configuration**: every ack-timeout
+    record names an operation number that has been handed out, and as long as that operation is tracked it is one that was
+    submitted with an ack timeout and is not a QoS 0 publish.  (Part of the engine invariant: `Core.Ok.to`, kept by every
+    function of the engine - records are added by `start_operation_ack_timeout` only, operation numbers are never
+    re-used, and no update of an operation changes its kind or its owner.) -/
+theorem timeout_records_only_for_operations_with_a_timeout (cfg : Config) (evs : List Event) (x : Nat × Nat)
+    (hx : x ∈ (runEvents (Engine.new cfg) evs).1.timeouts) :
+    x.1 < (runEvents (Engine.new cfg) evs).1.nextOpId ∧
+    ∀ o, (runEvents (Engine.new cfg) evs).1.op? x.1 = some o → o.ackTimeout.isSome = true :=
+  (inv_after cfg evs).1.to x hx
+
+/-- ... so the timeout pass can never fail an operation that was submitted without an ack timeout, in any history -/
+theorem operation_without_timeout_never_times_out (cfg : Config) (evs : List Event) (id : Nat) (o : Op)
+    (ho : (runEvents (Engine.new cfg) evs).1.op? id = some o) (hn : o.ackTimeout = none) (d : Nat) :
+    (id, d) ∉ (runEvents (Engine.new cfg) evs).1.timeouts := by
+  intro hx
+  have := (timeout_records_only_for_operations_with_a_timeout cfg evs (id, d) hx).2 o ho
+  rw [hn] at this; cases this
+
+/-- **Cleared on disconnect, in any history**: a Disconnected engine, and one waiting for its CONNACK, holds no ack-timeout
+    record - an operation carried over to the next connection starts its clock again when it is written there. -/
+theorem no_timeout_records_across_connections (cfg : Config) (evs : List Event)
+    (hs : (runEvents (Engine.new cfg) evs).1.state = .disconnected ∨ (runEvents (Engine.new cfg) evs).1.state = .pendingConnack) :
+    (runEvents (Engine.new cfg) evs).1.timeouts = [] := by
+  have hinv := inv_after cfg evs
+  have : (runEvents (Engine.new cfg) evs).1.view.noTimeouts = true := by
+    rcases hs with h | h
+    · exact (hinv.2.2.1 h).2.2.2.2.2
+    · exact (hinv.2.1.h1 h).2.2.2.2
+  simpa [Engine.view] using this
 
 end GV.Props.C18
